@@ -592,6 +592,11 @@ class OpaqueTypes(Plugin):
         self.patterns = dict(patterns); self.names = set('struct ' + v for v in self.patterns.values() if not v.startswith('long:'))
     def type_for(self, name, unit):
         q = canon_type(name)
+        if q.startswith('std::pair<') and not getattr(self, '_in_pair', False):
+            self._in_pair = True
+            try: r = self.pair_type(unit, q)
+            finally: self._in_pair = False
+            if r: return r
         for rx, cn in self.patterns.items():
             if re.match(rx, q):
                 if cn.startswith('long:'):
@@ -608,6 +613,64 @@ class OpaqueTypes(Plugin):
     def field_init(self, unit, f, ct, target, e): return []
     def field_dtor(self, unit, f, ct, target): return []
     def local_object(self, unit, v, ct, name, ks, p): unit.w(p + '%s %s;' % (ct.replace('const ', ''), name))
+    def pair_type(self, unit, qt):
+        """std::pair<K, V> (the value type of the opaque maps): a plain struct { K first; V second; }"""
+        m = re.match(r'^std::pair<(.*)>$', canon_type(qt.replace('const ', '', 1) if qt.startswith('const ') else qt).strip())
+        if not m: return None
+        args = []; depth = 0; cur = ''
+        for ch in m.group(1):
+            if ch in '<(': depth += 1
+            elif ch in '>)': depth -= 1
+            if ch == ',' and depth == 0: args.append(cur.strip()); cur = ''
+            else: cur += ch
+        args.append(cur.strip())
+        if len(args) != 2: return None
+        cts = [unit.ctype(a).replace('const ', '') for a in args]
+        nm = 'v_pair_' + re.sub(r'\W+', '_', '_'.join(cts).replace('*', 'p')).strip('_')
+        if '~' + nm not in unit.emitted_types:
+            unit.emitted_types['~' + nm] = 'struct %s { %s first; %s second; };' % (nm, cts[0], cts[1]); unit.type_order.append('~' + nm)
+        self.names.add('struct ' + nm)
+        return 'struct ' + nm
+    def range_for(self, unit, n, ind):
+        # range-for over an opaque associative container: positions are scalars handed out by the stubs `<struct>__begin(c)` /
+        # `<struct>__next(c, it)` (0 == end), the element is read through v_map_it_first / v_map_it_second; their contracts come from the spec
+        ks = [c for c in n.get('inner', []) if c.get('kind')]
+        body = ks[-1]; loopvar = None; rng = None
+        for c in ks[:-1]:
+            if c['kind'] == 'DeclStmt':
+                for v in unit.kids(c):
+                    if v.get('kind') != 'VarDecl': continue
+                    if v.get('name', '').startswith('__range'): rng = v
+                    elif not v.get('name', '').startswith('__'): loopvar = v
+        if rng is None or loopvar is None: return False
+        rexpr = unit.strip_tmp(unit.kids(rng)[0])
+        ct = self._ct(unit, rexpr)
+        if not ct or not ct.startswith('struct '): return False
+        cn = ct[len('struct '):]
+        lt = loopvar.get('type', {})
+        pt = None
+        for qt in (lt.get('desugaredQualType'), lt.get('qualType')):
+            if qt:
+                q = qt.strip()
+                is_ref = q.endswith('&'); q = q.rstrip('&').strip()
+                pt = self.pair_type(unit, q)
+                if pt: break
+        if pt is None: return False
+        if is_ref and 'const' not in (lt.get('qualType') or ''): raise Unsupported('range-for over an opaque map by mutable reference (in %s)' % unit.cur)
+        p = '  ' * ind
+        unit.loop_no += 1; ln = unit.loop_no
+        for f in (cn + '__begin', cn + '__next', 'v_map_it_first', 'v_map_it_second'): unit.count_call(f)
+        unit.w(p + '{')
+        unit.w(p + '  struct %s *__r%d = %s; long __it%d = %s__begin(__r%d);' % (cn, ln, unit.addr_of(rexpr), ln, cn, ln))
+        unit.ghost('before_loop:%d' % ln, p + '  ')
+        unit.w(p + '  for (; __it%d != 0; __it%d = %s__next(__r%d, __it%d))' % (ln, ln, cn, ln, ln))
+        unit.loopc(ln, p + '  ')
+        unit.local_names[loopvar['id']] = (loopvar['name'], False)
+        first = '%s %s; %s.first = *v_map_it_first(__it%d); %s.second = *v_map_it_second(__it%d);' % (pt, loopvar['name'], loopvar['name'], ln, loopvar['name'], ln)
+        unit.loop_body(body, ind + 1, ln, first_stmt=first)
+        unit.ghost('after_loop:%d' % ln, p + '  ')
+        unit.w(p + '}')
+        return True
     def _ct(self, unit, node):
         t = node.get('type', {})
         for qt in (t.get('desugaredQualType'), t.get('qualType')):
@@ -674,6 +737,11 @@ class OpaqueTypes(Plugin):
         if n.get('name') == 'second' and base_text.startswith('v_map_it_deref('):
             unit.count_call('v_map_it_second')
             return '(*v_map_it_second(%s))' % base_text[len('v_map_it_deref('):-1]
+        if n.get('name') in ('first', 'second'):
+            bt = unit.kids(n)[0].get('type', {})
+            for qt in (bt.get('desugaredQualType'), bt.get('qualType')):
+                if qt and self.pair_type(unit, qt.strip().rstrip('&*').strip()):
+                    return '%s%s%s' % (base_text, '->' if n.get('isArrow') else '.', n['name'])
         return None
     def _scalar_it(self, unit, node):
         t = node.get('type', {})
